@@ -102,6 +102,11 @@ func (g *anteG) step() {
 		g.block()
 		g.emit("genesis")
 	}
+	if r.P(1, 50) {
+		// a proposal with something that is no price: refused by the parameter's own validator, the prices stay
+		g.emit("setprices %s", rng.Pick(r, []string{"=!:1", "uusdc:-1", "setl:0.0001,=1abc:2", "uusdc:1,setl:-0.5"}))
+		g.tx("auto", "-", "10000:uusdc", 10000, fmt.Sprintf("deposit(a1~1~%d~=uusdc)", 1+r.N(9)))
+	}
 	if r.P(1, 60) {
 		// governance empties the price list: the default prices apply again, and nothing else about the parameters changes - the
 		// supported chains stay the supported chains
